@@ -437,6 +437,9 @@ func evalConstructorDeclareStmt(vm *r.VM, node *syntax.FunctionDeclareStmt) erro
 	// 2. no 此 const variable inside the fn scope
 	constructorLogic := func(instance r.Element, elems []r.Element) (r.Element, error) {
 		// set "this" value
+		if vm.CallDepthExceeded() {
+			return nil, zerr.CallDepthExceeded(r.MaxCallDepth)
+		}
 		vm.PushCallFrame(r.NewFunctionCallFrame(module, instance))
 		// until the first statement of the body runs, the call is at its own header line
 		vm.SetCurrentLine(node.GetCurrentLine())
